@@ -72,6 +72,15 @@ CLAIMS.update({
          "iterating closure parameters, and consumed only by reviewed sites.", "§4 C12"),
 })
 
+CLAIMS.update({
+ "C03": ("table agreement over all 203 functions (F-MAP + P-CONST): ArgumentList keywords vs PARAMETERS; consumer classification of coercion results with P-VAR variant knowledge",
+         "R03a keyword agreement, R03d no unwrap/expect on a coercion of a run-time value in resolve-reachable code. Found and fixed three panicking functions.", "§4 C03"),
+ "C04": ("panic-class rules: coercion/target result consumers, keyword agreement, overflow-capable negation, guarded sign-losing casts (dominance + alias analysis)",
+         "R04a,b,c,e,f decide absence of five classes of host panic; the remaining panic-capable sites (indexing, internal unwraps, third-party) are explicitly undecided.", "§4 C04"),
+ "C05": ("dominance/guard analysis of every signed->unsigned cast of a run-time integer in stdlib/value code",
+         "R05a: a user-supplied signed integer becomes an unsigned count only behind an order test (or bounded after the cast). One hazard class of non-termination, not termination in general.", "§4 C05"),
+})
+
 NA = {}
 
 def main():
